@@ -20,12 +20,33 @@ fn run_finder(
     min_len: usize,
     seqs: &[Vec<u8>],
 ) -> Vec<Vec<(usize, usize, i8)>> {
+    run_finder_opt(log, tag, starts, stops, min_len, seqs, false)
+}
+
+fn orfs_json(v: &[Orf]) -> Value {
+    Value::Array(v.iter().map(|o| json!({"start": o.start, "end": o.end, "offset": o.offset})).collect())
+}
+
+/// `forks`: additionally fork (clone) the iterator after every number of items and record both
+/// continuations; the Finder used is then a clone of the one constructed
+fn run_finder_opt(
+    log: &mut Log,
+    tag: &str,
+    starts: &[Codon],
+    stops: &[Codon],
+    min_len: usize,
+    seqs: &[Vec<u8>],
+    forks: bool,
+) -> Vec<Vec<(usize, usize, i8)>> {
     let mut all = vec![];
     if !log.begin(
         tag,
-        json!({"starts": codons_json(starts), "stops": codons_json(stops), "min_len": min_len}),
+        json!({"starts": codons_json(starts), "stops": codons_json(stops), "min_len": min_len, "cloned": forks as u8}),
     ) {
         return all;
+    }
+    if starts.iter().any(|c| stops.contains(c)) {
+        log.oblige("orf_codon_both_start_and_stop");
     }
     // the order (and repetition) of the codons handed to Finder::new is part of the input
     if starts.windows(2).any(|w| w[0] > w[1]) {
@@ -37,7 +58,13 @@ fn run_finder(
     if starts.windows(2).any(|w| w[0] == w[1]) || stops.windows(2).any(|w| w[0] == w[1]) {
         log.oblige("orf_repeated_codon");
     }
-    let finder = Finder::new(starts.iter().collect(), stops.iter().collect(), min_len);
+    let finder0 = Finder::new(starts.iter().collect(), stops.iter().collect(), min_len);
+    let finder = if forks {
+        log.oblige("orf_finder_cloned");
+        finder0.clone()
+    } else {
+        finder0
+    };
     for t in seqs {
         let mut got: Vec<(usize, usize, i8)> = vec![];
         log.call("find_all", json!({"t": bytes(t)}), || {
@@ -69,6 +96,32 @@ fn run_finder(
         if t.len() < 3 {
             log.oblige("orf_shorter_than_codon");
         }
+        if forks && got.len() <= 16 {
+            let mut pending_split = false;
+            log.call("forks", json!({"t": bytes(t)}), || {
+                let total = finder.find_all(t).count();
+                let mut v = vec![];
+                for k in 0..=total {
+                    let mut it = finder.find_all(t);
+                    let h: Vec<Orf> = it.by_ref().take(k).collect();
+                    let c = it.clone();
+                    let a: Vec<Orf> = it.collect();
+                    let b: Vec<Orf> = c.collect();
+                    // the fork falls between two ORFs closed by the same stop codon: one is still queued
+                    if let (Some(x), Some(y)) = (h.last(), a.first()) {
+                        if x.end == y.end {
+                            pending_split = true;
+                        }
+                    }
+                    v.push(json!({"h": orfs_json(&h), "a": orfs_json(&a), "b": orfs_json(&b)}));
+                }
+                json!({ "v": v })
+            });
+            log.oblige("orf_iterator_forked_at_every_position");
+            if pending_split {
+                log.oblige("orf_fork_with_found_orfs_pending");
+            }
+        }
         all.push(got);
     }
     all
@@ -78,7 +131,7 @@ const STD_STARTS: [Codon; 1] = [*b"ATG"];
 const STD_STOPS: [Codon; 3] = [*b"TGA", *b"TAG", *b"TAA"];
 
 fn codon_sets(variant: u64) -> (Vec<Codon>, Vec<Codon>, Vec<u8>) {
-    match variant % 8 {
+    match variant % 11 {
         0 => (STD_STARTS.to_vec(), STD_STOPS.to_vec(), b"ACGT".to_vec()),
         1 => (vec![*b"ATG", *b"GTG", *b"TTG"], vec![*b"TAA"], b"ATG".to_vec()),
         2 => (vec![[0, 255, 7], [7, 7, 7]], vec![[1, 1, 1], [255, 0, 7]], vec![0, 1, 7, 255]),
@@ -87,7 +140,11 @@ fn codon_sets(variant: u64) -> (Vec<Codon>, Vec<Codon>, Vec<u8>) {
         4 => (vec![*b"TTG", *b"GTG", *b"ATG"], vec![*b"TAA", *b"TAG", *b"TGA"], b"ATG".to_vec()),
         5 => (vec![*b"GTG", *b"ATG", *b"TTG", *b"ATG"], vec![*b"TAG", *b"TAA", *b"TAG"], b"ATG".to_vec()),
         6 => (vec![[7, 7, 7], [0, 255, 7], [7, 0, 7]], vec![[255, 0, 7], [1, 1, 1]], vec![0, 1, 7, 255]),
-        _ => (vec![*b"ATG", *b"ATG"], vec![*b"TGA", *b"TGA", *b"TAA"], b"ACGT".to_vec()),
+        7 => (vec![*b"ATG", *b"ATG"], vec![*b"TGA", *b"TGA", *b"TAA"], b"ACGT".to_vec()),
+        // a codon in both sets: it closes the open frames of its reading frame (and its own, 3 long)
+        8 => (vec![*b"ATG", *b"TGA"], vec![*b"TGA", *b"TAA"], b"ATG".to_vec()),
+        9 => (vec![*b"TAA", *b"ATG", *b"GTG"], vec![*b"TAG", *b"TAA"], b"ATG".to_vec()),
+        _ => (vec![[7, 7, 7], [0, 7, 7]], vec![[7, 7, 7], [0, 7, 7], [7, 0, 0]], vec![0, 7]),
     }
 }
 
@@ -155,6 +212,42 @@ pub fn drive(log: &mut Log) {
     }
     flush(&mut batch, &mut case, log);
     log.oblige("orf_exhaustive_small");
+
+    // (a') the same enumeration up to length 8 with TGA being a start AND a stop codon (the model-checked
+    //      overlap configuration), min_len rotating over 0, 3, 1
+    {
+        let starts: [Codon; 2] = [*b"ATG", *b"TGA"];
+        let stops: [Codon; 2] = [*b"TGA", *b"TAA"];
+        let mut cur: Vec<Vec<u8>> = vec![vec![]];
+        let mut batch: Vec<Vec<u8>> = vec![];
+        for l in 1..=8 {
+            let mut nxt = Vec::with_capacity(cur.len() * 3);
+            for s in &cur {
+                for &c in b"ATG" {
+                    let mut t = s.clone();
+                    t.push(c);
+                    nxt.push(t);
+                }
+            }
+            if l >= 3 {
+                for t in &nxt {
+                    batch.push(t.clone());
+                    if batch.len() == 250 {
+                        case += 1;
+                        if log.mine(case) {
+                            run_finder(log, "ov", &starts, &stops, [0usize, 3, 1][(case % 3) as usize], &batch);
+                        }
+                        batch.clear();
+                    }
+                }
+            }
+            cur = nxt;
+        }
+        case += 1;
+        if log.mine(case) && !batch.is_empty() {
+            run_finder(log, "ov", &starts, &stops, 0, &batch);
+        }
+    }
 
     // (c) codons containing 0x00 in each position (and other "default" bytes), sequences whose head is a
     //     proper suffix of a start/stop codon followed by in-frame filler and a stop codon, and every
@@ -227,7 +320,7 @@ pub fn drive(log: &mut Log) {
         }
         let mut rng = Rng::new(seed, 31, case);
         let (starts, stops, alpha) = codon_sets(i);
-        if i % 8 == 2 || i % 8 == 3 || i % 8 == 6 {
+        if i % 11 == 2 || i % 11 == 3 || i % 11 == 6 || i % 11 == 10 {
             log.oblige("orf_nonstandard_codons");
         }
         let n = match i % 3 {
@@ -238,7 +331,8 @@ pub fn drive(log: &mut Log) {
         let seqs: Vec<Vec<u8>> = (0..4).map(|_| soup(&mut rng, n, &starts, &stops, &alpha)).collect();
         let ml = minlens[(i / 4 % 7) as usize];
         run_finder(log, "sp", &starts, &stops, ml, &seqs);
-        let base = run_finder(log, "s0", &starts, &stops, 0, &seqs[..1]);
+        run_finder_opt(log, "fk", &starts, &stops, ml, &seqs[1..3], true);
+        let base = run_finder_opt(log, "s0", &starts, &stops, 0, &seqs[..1], true);
         // lengths seen with min_len = 0 -> min_len in {L-3 .. L+1}
         let mut lens: Vec<usize> = base.iter().flatten().map(|o| o.1 - o.0).collect();
         lens.sort_unstable();
